@@ -71,3 +71,15 @@ package msc
 //@   ghost var authorized bool = false
 //@   set after "if _, ok := snap.Signers[signer]; !ok" : authorized := has(snap.Signers, signer)
 //@   ensures[c29-authorized-signer] err == nil ==> authorized
+
+// the recent-signer window is judged on the sealer's most recent header among the last len(signers)/2 ancestors:
+// the scan of those ancestors runs on every successful path (an older sighting picked up while rebuilding the
+// snapshot from checkpoint and vote headers does not replace it)
+//@ func snapshot
+//@   property C29
+//@   mode abstract
+//@   requires native != nil && ctx != nil
+//@   modifies *
+//@   ghost var scanned bool = false
+//@   set before loop 4 : scanned := true
+//@   ensures[c29-recent-scan-always] err == nil ==> scanned
